@@ -12,7 +12,7 @@ CHECKS = {
         'filter over the inserted keys; all 65 640 run-id expressions of <= 3 terms are checked for '
         'denotation-preserving normalisation (and through find() on selected stores). The front-end entry '
         'points fe.api.facet.* and fe.api.database.search are called with URL-style parameters on every store. Complete '
-        'enumeration of that finite space, no sampling.',
+        'enumeration of that finite space, no sampling. Front-end pages: index only, limit only, index beyond the end, each judged against the end point\'s own unpaged list.',
         'note': 'shelve back end only (db/post/search.py needs a PostgreSQL server that does not exist '
         'in the sandbox); range a:b is half-open as Range.__contains__ defines; run id -1 excluded; '
         'one version per name so that state-vector level names are unique.',
@@ -32,7 +32,7 @@ CHECKS.update({
         'text': 'State graph of the real pl.schedule / pl.farm / pl.dag code per engine, explored breadth first to a '
         'fixpoint under the request budget; at every release (return of next_job_batch and every task message '
         'built by farm._put) the upstream closure computed by the generator must have nothing pending or '
-        'executing for the target, where executing is the harness ground truth decoded from worker transports.',
+        'executing for the target, where executing is the harness ground truth decoded from worker transports. Engines include an input shared by an analyzer and a regression.',
         'note': _SCHED_NOTE,
     },
     'C03': {
@@ -42,7 +42,7 @@ CHECKS.update({
         'every order). Every state: no two executions of one (algorithm,target) released and unanswered; every '
         'released unit is in exactly one of queue / handed to one worker; every reply is recorded exactly once '
         'and its report propagated exactly once; crew() busy list equals the units in flight. Reload jobs: the '
-        'pipeline reloads (notify_all, farm.clear, schedule.build) at any moment with tasks queued for want of a worker.',
+        'pipeline reloads (notify_all, farm.clear, schedule.build) at any moment with tasks queued for want of a worker. Every unit a dispatch moves to doing is accounted for (farm batch, cluster queue or a worker); jobs with one db.next() outage.',
         'note': _SCHED_NOTE,
     },
     'C04': {
@@ -53,7 +53,7 @@ CHECKS.update({
         'upstream stays pending; liveness on the explored graph restricted to dispatch/reply events: no cycle '
         '(Tarjan SCC) and every sink is quiescent. The last clause (every waiter on "queue empty" / "nothing '
         'executing" is eventually satisfied) is decided with the real waiter threads by the drain-and-run probe of C12. '
-        'Fault event: a dispatch during which the first db.next() draw raises (<=1 quick, <=2 thorough per history).',
+        'Fault event: a dispatch during which the first db.next() draw raises (<=1 quick, <=2 thorough per history). Second fault event: a reply arriving while the history journal cannot be written.',
         'note': _SCHED_NOTE,
     },
     'C05': {
@@ -64,7 +64,7 @@ CHECKS.update({
         'every transitive dependent, nothing else changes, nothing grows, schedule.update/organize is not '
         'reached, exactly one history record with the right status. Worker tier: the real worker.cluster.execute + '
         'worker.Context + generated task package against the real farm over an in-memory socket, the unit ending in '
-        'each of 10 ways (incl. SystemExit / KeyboardInterrupt / bare BaseException) x 3 scheduler scenarios x 2 engines.',
+        'each of 10 ways (incl. SystemExit / KeyboardInterrupt / bare BaseException) x 3 scheduler scenarios x 2 engines. A node with pending or executing work stays in the work queue.',
         'note': _SCHED_NOTE,
     },
     'C18': {
@@ -74,7 +74,7 @@ CHECKS.update({
         '(after,before) in (menu+None)^2 x limit {None,1,2} through the real chronicle.append/find; every sequence '
         'of <=3 appends over 18 entry kinds through the real schedule.complete with journal files re-read after '
         'each, and every sequence of <=2 over 48 kinds varying the scheduler state at reply time (target in doing / '
-        'withdrawn / node dequeued / __all__) and run id 0; the same windows through fe.api.schedule.succeeded/failed.',
+        'withdrawn / node dequeued / __all__) and run id 0; the same windows through fe.api.schedule.succeeded/failed. Window bounds are also written with +02:00 and -07:00 offsets; every second entry carries further timing keys (another calendar day) after \'completed\'.',
         'note': 'instants are timezone-aware UTC; after+limit only checked for subset/limit/order; both readings '
         'accepted for after+before+limit; wall clock replaced by a datetime subclass shim inside chronicle and schedule.',
     },
@@ -89,7 +89,7 @@ CHECKS.update({
         'factory styles, plus hand-picked deep shapes, is written as a real package, scanned by pl.scan and built by '
         'pl.dag.Construct; node sets, edge sets (value / state-vector / algorithm / task level), one object per '
         'tag, parents, ancestry (transitive closure) and the feedback map are compared with the description; deep and '
-        'canonical shapes also under a two-component base package.',
+        'canonical shapes also under a two-component base package. Self-registering packages that begin with a DAWGIE_IGNORE class (complete template / abstract base).',
         'note': 'graphviz rendering (pydot.Dot.write_svg) is stubbed; self loops created by trimming inside one package '
         'are ignored; node level is not checked (sort heuristic only).',
     },
@@ -112,7 +112,7 @@ CHECKS.update({
         'patterns and every rule-conforming DAG engine must be accepted by tools.compliant._verify and then build '
         'and schedule without error; each mix with exactly one of 28 breakage kinds at every applicable algorithm / '
         'factory position must be rejected; the exit status of python -m dawgie.tools.compliant is compared with the '
-        'in-process verdict for a representative of every breakage kind and every valid mix.',
+        'in-process verdict for a representative of every breakage kind and every valid mix. The command-line runs do not put the engine on PYTHONPATH, start from another directory and include engines under a two-component base package.',
         'note': 'any exception inside a rule counts as a rejection (as the gate does); the git/merge steps of tools.submit are not run.',
     },
 })
@@ -128,7 +128,7 @@ CHECKS.update({
         'variants, partial state vector, in-place overwrite) written through the real Interface.update; on each store '
         'and after single mutations (reopen from disk, add target, overwrite, remove) every load in runs x targets x '
         'algorithms x version configurations goes through the real Dataset.load and every slot is compared with a '
-        'reference dictionary (exact run, else highest run of the same identity, else the same sentinel object).',
+        'reference dictionary (exact run, else highest run of the same identity, else the same sentinel object). A loaded value modified in place never changes what a later load returns; Dataset.load(ALG_REF) from another task loads the referenced task\'s entry.',
         'note': _STORE_NOTE,
     },
     'C07': {
@@ -141,7 +141,7 @@ CHECKS.update({
         'second child re-opens from disk: catalogue opens, no entry refers to a missing file, the update is repeated '
         'and the oracle re-checked. Two-value state vectors (all pairs of updates over 3 contents per slot). Purge '
         'tool: the real db/tools/purge.py __main__ with --context-* options naming one store while the environment '
-        'names another, all 15 pairs of store histories: no catalogue entry of either store dangles.',
+        'names another, all 15 pairs of store histories: no catalogue entry of either store dangles. The purge tool is also run against an empty (mistyped) catalogue over a populated store.',
         'note': _STORE_NOTE + '; process-crash model (completed system calls persist, user-space buffers are lost); '
         'staging and store on one file system; read-only calls are merged with the next mutating call (same disk state).',
     },
@@ -152,7 +152,7 @@ CHECKS.update({
         'paths; per store: name/id bijection, gap-free ids, id stability, chain resolution, next run id, all again '
         'after close/reopen from disk; then 11 removes, every trace and every version reset compared with a reference '
         'computed on exact name equality; a digit-boundary store (ids 1/10/11, runs 8..101); db.tools.worm.consume for '
-        'all 23 criteria tuples over {wildcard, value} per field incl. run id 0.',
+        'all 23 criteria tuples over {wildcard, value} per field incl. run id 0. Fault enumeration: one failing catalogue write at every write position of a registration (3 registration paths), then the job re-run, two more registrations and a reopen.',
         'note': _STORE_NOTE,
     },
 })
@@ -167,7 +167,7 @@ CHECKS.update({
         'yours" sent only in the step the connection acquired it, a dropped holder frees the lock in the same step, a '
         'dropped waiter never acquires and its poll timer dies, a live poll on a free lock is granted; from every state '
         'with a free lock and a live waiter a grant occurs within one poll period. The spaces are explored under three '
-        'acquire-label schemes: distinct labels, one label for all clients, empty / None labels.',
+        'acquire-label schemes: distinct labels, one label for all clients, empty / None labels. One configuration lets the pipeline close and re-open its data base (real DBSerializer.open) at any moment. Client tier: the real Interface.load/update ending normally / aborted / with an invalid or unpicklable value must leave the lock free and the next client served.',
         'note': 'at most 2 (thorough 3) connections per client per history; clients release only after being told they '
         'hold the lock (as comms.acquire/release do); the client side of the protocol is exercised by every store check '
         '(C06-C08, C15, C17) through the loopback.',
@@ -195,7 +195,7 @@ CHECKS.update({
         'certificates configured x certificate presented x 5 access hooks: without certificate no run/reset/submit/'
         'snapshot handler runs; a raising or unresolvable hook denies everything; legitimate callers are served. '
         '"Certificates configured" also through the real security._tls_initialize on 5 key-directory layouts with real '
-        'self-signed certificates.',
+        'self-signed certificates. (c) every sequence of <=3 front-end starts over {site A, site B, bundled site}: nothing of a root that is no longer configured is served.',
         'note': 'handlers are replaced by recorders while the access decision is exercised; request.uri is not percent-decoded '
         '(as Twisted delivers it).',
     },
@@ -215,7 +215,7 @@ CHECKS.update({
         'returns to where it came from, at rest the state is running or gitting with transitioning active, active is '
         'declared only at rest in running; in every state every trigger the dot file forbids must raise MachineError and '
         'leave everything identical, and draining the outstanding background steps must reach rest. Reload tier: real '
-        'FSM._reload + RollbackImporter on a generated package for every sequence of <=2 (3) changesets out of 5 kinds.',
+        'FSM._reload + RollbackImporter on a generated package for every sequence of <=2 (3) changesets out of 5 kinds. Extra schedules in which the body of one kind of background step (or of all) has finished before deferToThread returns; a second failure() of an already answered submission must change nothing.',
         'note': _FSM_NOTE + '; bounds: <=2 submissions, <=1 new-data event, <=1 user reset per history (thorough: more).',
     },
     'C12': {
@@ -226,7 +226,7 @@ CHECKS.update({
         'call the condition of the strongest priority submitted since the last reset holds at that instant, the call is '
         'accepted, at most one per reload cycle; refused submissions change nothing; from every state with an accepted '
         'submission outstanding, draining the work and running every waiter reaches update_trigger. fe.api.cmd_reset is '
-        'an event of one configuration (reset = reload now; a refused reset changes nothing).',
+        'an event of one configuration (reset = reload now; a refused reset changes nothing). Deviation: the submitting client has gone before the answer (Request.finish raises); one configuration uses the legacy fe.submit.Process.',
         'note': _FSM_NOTE + '; bounds: (2 submissions, 1 run request, 2 reload cycles), (1 submission, 3 run requests) and (2 submissions, 1 run request, 1 cycle, 1 reset).',
     },
 })
@@ -243,7 +243,7 @@ CHECKS.update({
         '(factory, target, run 0 for regressions) match the released unit; the run id is the one the triggering event '
         'carried, else db.next() drawn exactly once per released algorithm; queue conservation at every dispatch '
         '(released + queued = sent + queued); an engine whose algorithms ask for cloud placement (where() / history hint) '
-        'on a farm without cloud agency; exceptions out of dispatch are violations.',
+        'on a farm without cloud agency; exceptions out of dispatch are violations. A reload executes the body of the real FSM.load (order of notify_all and clear). Worker tier: Algorithm.abort() answers follow the farm\'s current state.',
         'note': _SCHED_NOTE + '; cloud (AWS) placement is out of reach; db.next() is a harness constant in this tier '
         '(strict monotonicity of next() against stored runs is decided in C08).',
     },
@@ -256,7 +256,7 @@ CHECKS.update({
         'further than one period ahead. (b) real periodics/defer/complete + farm on the virtual reactor and clock, 7 '
         'engines x 5 boot instants, all interleavings of timer / dispatch / reply / reload over a 3-period horizon: a '
         'firing queues exactly the known targets, a boot event fires once per process (also across a reload), every '
-        'occurrence of a weekly / monthly event is served within its period.',
+        'occurrence of a weekly / monthly event is served within its period. One completion per history may arrive while the journal cannot be written; a unit the scheduler believes executing must exist in the farm batch, the cluster queue or with a worker.',
         'note': 'a moment earlier on the current day counts as due (as the code treats it); the farm dispatches before '
         'virtual time passes; a unit may outlive one time step.',
     },
